@@ -137,6 +137,8 @@ impl Prop for C07 {
             GenSpec::random("roundtrip", tier.pick(60_000, 600_000)),
             // bigger libraries (tens of KB of GDSII) taken through a FILE between export and import: GdsLibrary::save then GdsLibrary::load
             GenSpec::random("roundtrip-via-file", tier.pick(150, 4_000)),
+            // one cell of more than 65 536 shapes (fill, a flat top cell), named shapes among the last ones: positions that do not fit 16 bits
+            GenSpec::random("huge-cell", tier.pick(3, 24)),
         ]
     }
     fn run_case(&self, cx: &mut Cx) {
@@ -161,7 +163,35 @@ impl Prop for C07 {
             cfg.view_names = true;
             cx.count("libraries_with_view_names");
         }
+        let huge = cx.gen == "huge-cell";
+        if huge {
+            cfg.max_cells = 3;
+            cfg.max_elems = 4;
+        }
         let g = rand_raw_lib(&mut cx.rng, &cfg);
+        if huge {
+            let n = 65_530 + cx.rng.usize(300);
+            let (key, _, purposes) = g.defs.table[0].clone();
+            let purpose = purposes[0].0.clone();
+            let target = g.lib.cells.iter().find(|c| c.read().unwrap().layout.is_some()).cloned();
+            if let Some(c) = target {
+                let mut c = c.write().unwrap();
+                let lay = c.layout.as_mut().unwrap();
+                // the existing shapes stay in front; the fill goes far away from them, 10 units apart
+                for i in 0..n {
+                    let (x, y) = (1_000_000 + 10 * (i % 300) as raw::Int, 1_000_000 + 10 * (i / 300) as raw::Int);
+                    let late = i + 90 >= n && i % 11 == 0;
+                    lay.elems.push(raw::Element {
+                        net: if late || i == 7 || i == 32_768 { Some(format!("fill_net_{}", i)) } else { None },
+                        layer: key,
+                        purpose: purpose.clone(),
+                        inner: Shape::Rect(raw::Rect { p0: raw::Point::new(x, y), p1: raw::Point::new(x + 4, y + 4) }),
+                    });
+                }
+                cx.count("huge_cells");
+                cx.max("max.shapes_in_one_cell", lay.elems.len() as u64);
+            }
+        }
         if !self.trip(cx, &g, via_file) {
             return;
         }
